@@ -18,6 +18,8 @@ var Registry = map[string]func(args []int64){
 	"H_C13b":      func(a []int64) { H_C13b(int(a[0]), int(a[1])) },
 	"H_C13seed":   func(a []int64) { H_C13seed(int(a[0]), int(a[1])) },
 	"H_C01":       func(a []int64) { H_C01(int(a[0]), int(a[1])) },
+	"H_C06":       func(a []int64) { H_C06(int(a[0])) },
+	"H_C06ops":    func(a []int64) { H_C06ops(int(a[0])) },
 	"H_C04":       func(a []int64) { H_C04(int(a[0]), int(a[1])) },
 	"H_C05":       func(a []int64) { H_C05(int(a[0]), int(a[1])) },
 	"H_C05seed":   func(a []int64) { H_C05seed(int(a[0]), int(a[1])) },
